@@ -179,9 +179,16 @@ class Rec(Shape):
 
 
 class Obj(Shape):
-    def __init__(self, cls, **attrs):
+    """instance of a repository class.  _inv: object invariant (expression strings over `self`),
+    assumed whenever an object of this shape is created (is_valid() of the type) and re-established by
+    the functions that own the representation fields _rep (lazily built caches): only functions whose
+    contract declares a _rep path in `modifies` may access those fields directly."""
+
+    def __init__(self, cls, _inv=(), _rep=(), **attrs):
         self.cls = cls
         self.attrs = attrs
+        self.inv = list(_inv)
+        self.rep = tuple(_rep)
 
     def make(self, mk, name, idx=None):
         # attributes may alias each other: 'same:<attr path>' handled by Alias
@@ -197,12 +204,21 @@ class Obj(Shape):
             if isinstance(v, StructRef) and getattr(v, 'pending_owner', None):
                 v.owner = Alias(v.pending_owner).resolve(o)
                 v.pending_owner = None
+        if self.inv or self.rep:
+            o.inv_texts, o.rep = self.inv, self.rep
+            o.rep_shapes = {k: self.attrs[k] for k in self.rep if k in self.attrs}
+            cur = mk.current() if hasattr(mk, 'current') else None
+            it = getattr(cur, 'interp', None)
+            if idx is None and it is not None:
+                it.assume_invariant(o)
         return o
 
     def extend(self, **more):
         a = dict(self.attrs)
+        inv = more.pop('_inv', self.inv)
+        rep = more.pop('_rep', self.rep)
         a.update(more)
-        return Obj(self.cls, **a)
+        return Obj(self.cls, _inv=inv, _rep=rep, **a)
 
 
 class Alias(Shape):
@@ -227,7 +243,8 @@ class Opt(Shape):
 
     def make(self, mk, name, idx=None):
         if idx is not None:
-            raise NotImplementedError('indexed Opt')
+            from .vals import SOpt
+            return SOpt(BoolT().make(mk, name + '.isnone', idx), self.inner.make(mk, name, idx))
         b = mk.const(name + '.isnone', BoolS)
         if mk.branch(b):
             return None
@@ -441,7 +458,11 @@ class DictOf(Shape):
                 from .ctx import Unsupported
                 raise Unsupported('lookup in %s with a non-constant key' % name)
             if k not in cache:
-                cache[k] = (smk.const('%s.has[%s]' % (base, k), BoolS), inner.make(smk, '%s[%s]' % (base, k), idx))
+                if idx is not None:
+                    # inside a sequence element: membership and value are functions of the element index
+                    cache[k] = (BoolT().make(smk, '%s.has[%s]' % (base, k), idx), inner.make(smk, '%s[%s]' % (base, k), idx))
+                else:
+                    cache[k] = (smk.const('%s.has[%s]' % (base, k), BoolS), inner.make(smk, '%s[%s]' % (base, k), idx))
             return cache[k]
         return SDict(lambda k: key(k)[0], lambda k: key(k)[1], name)
 
@@ -475,3 +496,30 @@ class SameAs(Shape):
 
     def __init__(self, path):
         self.path = path
+
+
+class SharedStream(Shape):
+    """the one stream object of a section: every occurrence of this shape on a path is the same
+    stream (identity), e.g. the .debug_info stream held by the section descriptor and by every entry"""
+
+    def __init__(self, name):
+        self.name = name
+
+    def make(self, mk, name, idx=None):
+        cur = mk.current() if hasattr(mk, 'current') else mk
+        shared = cur.__dict__.setdefault('_shared_streams', {})
+        if self.name not in shared:
+            shared[self.name] = Stream.make(cur, self.name)
+        return shared[self.name]
+
+
+class SymOpt(Shape):
+    """None or a value of the inner shape, kept symbolic (no path fork): code that uses the value
+    forks where it inspects it"""
+
+    def __init__(self, inner):
+        self.inner = inner
+
+    def make(self, mk, name, idx=None):
+        from .vals import SOpt
+        return SOpt(BoolT().make(mk, name + '.isnone', idx), self.inner.make(mk, name, idx))
